@@ -81,7 +81,7 @@ def strategy_(draw, tier):
       max_nodes=10, min_nodes=3, leaf_profile='nan_free', bts=('Config', 'Config', 'Partial'),
       kinds=['B', 'B', 'B', 'list', 'tuple', 'dict', 'mdict', 'mdict', 'nt', 'ltuple', 'ntuple', 'set'],
       p_alias=0.75,
-      fns=['things:f2', 'things:h1', 'things:Base', 'things:Other', 'things:LeafCls', 'things:kwdef'],
+      fns=['things:f2', 'things:h1', 'things:Base', 'things:Other', 'things:LeafCls', 'things:kwdef', 'things:kwf'],
       root_kinds=['B'], uid=draw(st.booleans())))
   # occasionally a node over the positional-only-defaults callable
   if draw(st.floats(0, 1)) < 0.25:
